@@ -81,6 +81,12 @@ Definition ri_access_table : list string := [
 Definition ri_row (prefix : string) : option string :=
   find (fun r => String.prefix (prefix ++ "|") r) ri_access_table.
 
+(* NOTE (cachex Future, ants task, taskx callback): the three instances below are kept as the
+   protocol-level reading; they are now BACKED by stronger theorems: for cachex every run of the
+   labelled small-step model CacheSteps.v (models/RaceCache.v, props/C18.v: c18_cache_model_race_free,
+   with the shard map, the status check under the lock, the job channel and the sweep); for the two
+   task types labelled protocol machines with any number of attempts, late handlers and Get2 callers
+   (models/RaceTasks.v: c18_ants_task_protocol_race_free, c18_taskx_task_protocol_race_free). *)
 (* cachex.Future: setValue writes value (loc 1), err (loc 2), then atomic StorePointer updateTime (obj 10), StorePointer predecessor (obj 11), wg.Done (obj 12). Readers: Get2/Get1 after wg.Wait; getFutureStatus reads err only after getUpdateTime observed a non-zero time (the early return when IsZero). *)
 Definition ri_future : rc_pub := {| pb_ws := [1; 2]%nat; pb_os := [10; 11; 12]%nat; pb_readers := [(12, [1; 2]); (12, [1]); (10, [2]); (10, [2])]%nat |}.
 Definition ri_future_rows : list string := [
